@@ -54,6 +54,7 @@ def prepare(run, debug=False):
 
 
 MORE_PROPS = {"theories/props/C15.v": ["theories/props/C15_state.v"],
+              "theories/props/C05.v": ["theories/props/C05_leaves.v"],
               "theories/props/C01.v": ["theories/props/C01_depth.v"],
               "theories/props/C16.v": ["theories/props/C16_errors.v"]}
 
@@ -1713,6 +1714,8 @@ def check_c20(run, replay):
     # deep trees up to and beyond serde_json's recursion limit
     for n in (10, 40, 57, 58, 59, 60, 63):
         cases.append(pfam.Case("package p\nfunc f() { x = " + "(" * n + "y" + ")" * n + " }\n", "F-deep"))
+    # nesting around every cap: a feature must not move a limit either
+    cases += nest_families([30, 63, 64, 65, 100, 120, 121, 150, 191, 192, 193])
     srcs = [c.src for c in cases]
     base = vlib.run_records(gv, "parse", srcs)
     model = vlib.run_records(gm, "parse", srcs)
